@@ -11,7 +11,6 @@ Definition leaf_size_guard (l : leaf) : bool :=
   | LMdat _ data => lenN data <? 18446744073709551600
   | LTrun _ _ _ _ samples => lenN samples <? 4294967296
   | LStts _ _ es => lenN es <? 4294967296
-  | LHdlr _ _ _ ht _ _ => lenN ht =? 4
   | LStsz _ _ uni num ss => if 0 <? uni then lenN ss =? 0 else lenN ss =? num
   | LTab n _ _ _ items => (lenN n =? 4) && (lenN items <? 4294967296)
   | LCtts _ _ _ offs => lenN offs <? 4294967296
@@ -29,9 +28,9 @@ Definition leaf_size_guard (l : leaf) : bool :=
   | LColr ct _ _ _ _ _ => lenN ct =? 4
   | LSchm _ _ st _ _ => lenN st =? 4
   (* readBoxSize is what the fields need: holds of an exact decoded senc whose data is written back *)
-  | LSenc _ _ raw rs np => rs =? 16 + (if np then lenN raw else 0)
+  | LSenc _ cnt raw rs np => rs =? 16 + (if senc_keeps np cnt rs then lenN raw else 0)
   | LUuidTfrf _ _ cnt es => cnt <=? lenN es
-  | LUuidSenc _ _ raw rs np => rs =? 16 + (if np then lenN raw else 0)
+  | LUuidSenc _ cnt raw rs np => rs =? 16 + (if senc_keeps np cnt rs then lenN raw else 0)
   | LUuidUnk u _ => lenN u =? 16
   | LSgpd v _ gt dlen _ items _ =>
       (lenN gt =? 4) && forallb (fun it => lenN (wr_sge (snd it) 0) =? fst it) items &&
@@ -177,7 +176,7 @@ Proof.
   - (* sidx *) cbn [size_leaf]. destruct (version =? 0); lens; lia.
   - lens. lia.
   - (* mdhd *) cbn [size_leaf]. destruct (version =? 1); lens; lia.
-  - (* hdlr *) apply N.eqb_eq in G. cbn [size_leaf]. destruct lacksNull; lens; lia.
+  - (* hdlr *) cbn [size_leaf]. destruct lacksNull; lens; lia.
   - (* stts *) apply N.ltb_lt in G. cbn [size_leaf]. unfold u32. rewrite N.mod_small by assumption. lens. lia.
   - (* stsc *) destruct ((single =? 0) && (lenN ids <? lenN entries)); [discriminate|]. injection Eb as <-. lens. lia.
   - (* stsz *) cbn [size_leaf]. destruct (0 <? uniform); apply N.eqb_eq in G.
@@ -236,7 +235,7 @@ Proof.
   - (* schm *) apply N.eqb_eq in G. cbn [size_leaf]. destruct (has flags 1); lens; lia.
   - (* cslg *) cbn [size_leaf]. destruct (version =? 0); cbn [negb]; lens; lia.
   - (* senc *) destruct (negb notParsed && has flags 2 && (0 <? count)); [discriminate|]. injection Eb as <-.
-    apply N.eqb_eq in G. destruct notParsed; lens; lia.
+    apply N.eqb_eq in G. destruct (senc_keeps notParsed count readSize); lens; lia.
   - (* emsg *) cbn [size_leaf]. destruct (version =? 1); lens; lia.
   - (* elng *) cbn [size_leaf chunk nth]. destruct missing; lens; lia.
   - (* kind *) lens. lia.
@@ -248,7 +247,7 @@ Proof.
     cbn [size_leaf]. unfold uuid_w. destruct (version =? 0); cbn [negb]; lens;
       rewrite ?(lenN_flat_map_const _ _ _ (lenN_wr_pairw _)); rewrite lenN_firstn by assumption; lia.
   - (* uuid piff senc *) destruct (negb notParsed && has flags 2 && (0 <? count)); [discriminate|]. injection Eb as <-.
-    apply N.eqb_eq in G. destruct notParsed; lens; change (lenN uuid_piff) with 16; lia.
+    apply N.eqb_eq in G. destruct (senc_keeps notParsed count readSize); lens; change (lenN uuid_piff) with 16; lia.
   - (* uuid unknown *) apply N.eqb_eq in G. lens. lia.
   - (* sgpd *) apply andb_true_iff in G. destruct G as [G G4]. apply andb_true_iff in G. destruct G as [G G3].
     apply andb_true_iff in G. destruct G as [G1 G2]. apply N.eqb_eq in G1. cbn [size_leaf]. unfold wr_if.
